@@ -2,7 +2,7 @@
 //! target that serves the property, with the semantic oracle inside the target,
 //! and merges what it covered into the evidence file.
 use crate::framework::{verif_dir, Tier};
-use crate::fuzzglue::target_of;
+use crate::fuzzglue::targets_of;
 use serde_json::{json, Value as J};
 use std::path::PathBuf;
 use std::process::Command;
@@ -17,6 +17,7 @@ fn campaign(target: &str) -> (u64, &'static str, u32) {
 	match target {
 		"parse_diff" => (3_000_000, "none", 256),
 		"print_rt" => (1_500_000, "none", 512),
+		"value_laws" => (400_000, "none", 512),
 		_ => (120_000, "address", 1024),
 	}
 }
@@ -25,11 +26,27 @@ pub fn run(prop: &str, tier: Tier, seed: u64) -> Option<FuzzOutcome> {
 	if tier != Tier::Thorough {
 		return None;
 	}
-	let target = target_of(prop)?;
+	let targets = targets_of(prop);
+	if targets.is_empty() {
+		return None;
+	}
+	// a violation in any campaign wins over an inconclusive one
+	let mut code = 0;
+	for target in targets {
+		match run_one(prop, target, seed)?.code {
+			1 => code = 1,
+			2 if code == 0 => code = 2,
+			_ => {}
+		}
+	}
+	Some(FuzzOutcome { code })
+}
+
+fn run_one(prop: &str, target: &str, seed: u64) -> Option<FuzzOutcome> {
 	let (runs, sanitizer, max_len) = campaign(target);
 	let runs = std::env::var("JSV_FUZZ_RUNS").ok().and_then(|s| s.parse().ok()).unwrap_or(runs);
 	let vdir = verif_dir();
-	let work: PathBuf = vdir.join("scratch").join(format!("fuzz-{prop}-{seed}"));
+	let work: PathBuf = vdir.join("scratch").join(format!("fuzz-{prop}-{target}-{seed}"));
 	let _ = std::fs::remove_dir_all(&work);
 	let corpus = work.join("corpus");
 	let artifacts = work.join("artifacts");
